@@ -11,8 +11,19 @@ Leg S2C : every TLC input state becomes a real track.Track with real Task / Para
 Leg C2S : every recorded (schedule, filters, mode, filtered schedule, allocation) — also seeded random larger ones — is
           validated by TLC against TraceTaskFilter.tla: L1 = the C11 clauses (Runnable = the C02 clauses on the recorded
           allocation of the filtered schedule), L2 = equality with the transcription.
+Leg R   : "the driver can execute and report every remaining step" as complete RACES: for every schedule g of a seeded generated
+          family a LARGER track is built (extra leaf tasks inside g's elements, whole extra elements, extra parallels that the
+          filter empties; by name, `type:` or `tag:`, include or exclude), the REAL TaskFilterTrackProcessor filters it, and the
+          result is what the real BenchmarkActor / DriverActor / Workers run under SimActorSystem along TLC-simulated behaviours
+          of RaceDriver.tla for g. Each recorded race is validated by TLC against TraceRaceDriver.tla with g as the scenario:
+          the L1 clauses of the race (barrier, every cell exactly once, completion, no spurious failure, no stall) are C11's
+          "runnable" here. A filtered schedule that is not g is an ExactSelection violation and is not raced.
 """
+import copy
+import zlib
+
 import json
+import logging
 import os
 import random
 
@@ -220,6 +231,155 @@ def run(ctx, out):
     n_empty += sum(1 for it in items if "out" in it and rs.has_empty_parallel(it["out"]))
     out.extra["filtered_schedules_with_empty_parallel"] = n_empty
     _report(validate(items, out), out)
+    race_leg(ctx, out)
+
+
+# ---------------------------------------------------------------------------------------------------------------------
+# Leg R: races on filtered tracks
+
+
+def inflate(sched, seed):
+    """g's schedule + tasks the filter must remove. Returns (larger schedule, filter strings, mode). Deterministic in (sched, seed)."""
+    rnd = random.Random(zlib.crc32(repr((sched, seed)).encode()))
+    how = rnd.choice(["name", "type", "tag"])
+    mode = rnd.choice(["include", "exclude"])
+    nxt = iter(range(50, 99))
+
+    def extra():
+        t = {"id": next(nxt), "clients": rnd.choice([1, 1, 2]), "reqs": 1, "cp": False, "acp": False, "extra": True}
+        if how == "type" and mode == "exclude":
+            t["optype"] = "sleep"
+        if how == "tag" and mode == "exclude":
+            t["tags"] = ["drop", "other"]
+        return t
+
+    big = []
+    for e in copy.deepcopy(sched):
+        for t in e["tasks"]:
+            if mode == "include" and how == "tag":
+                t["tags"] = ["other", "keep"]
+            if mode == "include" and how == "type":
+                t["optype"] = "raw-request"
+        r = rnd.random()
+        if r < 0.3:
+            big.append({"tasks": [extra()], "cap": 0})  # a leaf task in front of the element
+        elif r < 0.5:
+            big.append({"tasks": [extra(), extra()], "cap": rnd.choice([0, 1])})  # a parallel the filter empties
+        if rnd.random() < 0.6:
+            k = rnd.choice([1, 1, 2])
+            for _ in range(k):
+                e["tasks"].insert(rnd.randrange(len(e["tasks"]) + 1), dict(extra(), acp=False))
+            e["parallel"] = True
+        big.append(e)
+    if rnd.random() < 0.5:
+        big.append({"tasks": [extra()], "cap": 0})
+    if not any(t.get("extra") for e in big for t in e["tasks"]):
+        big.insert(0, {"tasks": [extra()], "cap": 0})
+    if mode == "include" and how == "type":
+        for e in big:
+            for t in e["tasks"]:
+                if t.get("extra"):
+                    t["optype"] = "sleep"
+    keep = [t for e in big for t in e["tasks"] if not t.get("extra")]
+    drop = [t for e in big for t in e["tasks"] if t.get("extra")]
+    if how == "name":
+        strs = ["t%d" % t["id"] for t in (keep if mode == "include" else drop)]
+        rnd.shuffle(strs)
+    elif how == "type":
+        strs = ["type:raw-request"] if mode == "include" else ["type:sleep"]
+    else:
+        strs = ["tag:keep"] if mode == "include" else ["tag:drop"]
+    return big, strs, mode
+
+
+def filtered_track(scn, lenient=(), seed=0):
+    """The real track of the larger schedule after the REAL task filter; tasks_by_id of the surviving real Task objects."""
+    from esrally import config
+    from esrally.track import loader
+
+    from .. import racesim
+
+    big, strs, mode = inflate(scn["sched"], seed)
+    t, _ = racesim.build_track({"sched": big}, lenient)
+    logging.getLogger("esrally.track.loader").setLevel(logging.WARNING)
+    cfg = config.Config()
+    cfg.add(config.Scope.application, "track", "include.tasks", strs if mode == "include" else None)
+    cfg.add(config.Scope.application, "track", "exclude.tasks", strs if mode == "exclude" else None)
+    res = loader.TaskFilterTrackProcessor(cfg).on_after_load_track(t)
+    if res is None:
+        res = t
+    by_id = {}
+    for el in res.challenges[0].schedule:
+        for leaf in el:
+            by_id[int(leaf.name[1:])] = leaf
+    return res, by_id
+
+
+def expected_shape(sched):
+    return [(["t%d" % t["id"] for t in e["tasks"]], e["cap"]) for e in sched]
+
+
+def race_leg(ctx, out):
+    from .. import racesim
+    from . import racecommon as rc
+
+    n_scn, num = (16, 24) if ctx.quick else (150, 300)
+    gbeh, ngen = rc.behaviours_gen(ctx, out, n_scn, num, 100, seed_off=1100)
+    seed = ctx.seed
+    jobs, seen, bad_scn = [], {}, 0
+    for i, (scn, script) in enumerate(gbeh):
+        key = repr(scn["sched"])
+        if key not in seen:
+            big, strs, mode = inflate(scn["sched"], seed)
+            try:
+                trk, _ = filtered_track(scn, (), seed)
+                got = [(names, cap) for names, cap in _shape_of(trk)]
+                ok = got == expected_shape(scn["sched"])
+                detail = "%s %s on %s -> %s, expected %s" % (mode, strs, _big_short(big), got, expected_shape(scn["sched"]))
+            except tlc.MachineryError:
+                raise
+            except Exception as ex:  # pylint: disable=broad-except
+                ok, detail = False, "%s %s on %s: filter %s: %s" % (mode, strs, _big_short(big), type(ex).__name__, ex)
+            seen[key] = ok
+            if not ok:
+                bad_scn += 1
+                out.violations.append(Violation("ExactSelection", {"race_leg": True, "sched": scn["sched"], "seed": seed, "filter_only": True}, signature={"clauses": ["ExactSelection"], "leg": "race", "mode": mode, "filters": strs[0].split(":")[0] if ":" in strs[0] else "name"}, detail=detail))
+            else:
+                out.add_case(("race-leg", big, strs, mode))
+        if seen[key]:
+            jobs.append({"scn": scn, "script": script, "seed": ctx.seed + 11000 + i, "test_mode": i % 2 == 0, "qmax": 100})
+    racesim.TRACK_HOOK = lambda scn, lenient: filtered_track(scn, lenient, seed)
+    try:
+        stats, index = rc.run_races(ctx, out, jobs, rc.C01_CLAUSES, "c11race")
+    finally:
+        racesim.TRACK_HOOK = None
+    for v in out.violations:
+        if isinstance(v.case, dict) and "decisions" in v.case and "race_leg" not in v.case:
+            v.case["race_leg"] = True
+            v.case["filter_seed"] = seed
+    out.extra["race_leg"] = {"generated_schedules": ngen, "filtered_tracks_not_as_expected": bad_scn, "races": len(jobs), "races_hanging": stats["hangs"], "schedule_steps_followed": stats["followed"]}
+    out.note("leg R: %d generated schedules, each the result of the real filter on a larger track; %d races on the real actors (%d hanging)" % (len(seen), len(jobs), stats["hangs"]))
+
+
+def _shape_of(trk):
+    res = []
+    for el in trk.challenges[0].schedule:
+        names = [x.name for x in el]
+        if hasattr(el, "tasks"):
+            # Parallel: `clients` is the explicit cap if one was given, else the sum over the sub-tasks
+            cap = el.clients
+            res.append((names, 0 if cap == sum(x.clients for x in el.tasks) and not _explicit_cap(el) else cap))
+        else:
+            res.append((names, 0))
+    return res
+
+
+def _explicit_cap(par):
+    return getattr(par, "_clients", None) is not None
+
+
+def _big_short(big):
+    return [[("t%d%s" % (t["id"], "x" if t.get("extra") else "")) for t in e["tasks"]] for e in big]
 
 
 def _report(bad, out):
@@ -234,6 +394,24 @@ def _report(bad, out):
 
 
 def replay(ctx, case):
+    if case.get("race_leg"):
+        from .. import racesim
+        from . import racecommon as rc
+
+        if case.get("filter_only"):
+            trk, _ = filtered_track({"sched": case["sched"]}, (), case["seed"])
+            got = _shape_of(trk)
+            print("filtered: %s expected: %s" % (got, expected_shape(case["sched"])))
+            if got != expected_shape(case["sched"]):
+                print("VIOLATION property=C11 clause=ExactSelection")
+                return 1
+            return 0
+        fseed = case.get("filter_seed", 0)
+        racesim.TRACK_HOOK = lambda scn, lenient: filtered_track(scn, lenient, fseed)
+        try:
+            return rc.replay_case(ctx, case, rc.C01_CLAUSES, "C11")
+        finally:
+            racesim.TRACK_HOOK = None
     items = run_case("replay", case)
     for it in items:
         if "crash" in it:
